@@ -370,7 +370,9 @@ where
 
         for (i, k_row) in self.k_coefficients.row_iter().enumerate() {
             self.scratch_pad = self.state.clone();
-            for (j, &k_coeff) in k_row.iter().enumerate() {
+            // Only the stages of this trial: later columns still hold the previous trial's values,
+            // and a zero coefficient does not cancel an overflowed one (0 * inf is NaN)
+            for (j, &k_coeff) in k_row.iter().enumerate().take(i) {
                 self.scratch_pad += self.half_steps.column(j) * k_coeff;
             }
 
@@ -404,7 +406,8 @@ where
 
         let delta = self.point_eighty_four.real()
             * (self.tolerance.real() / error.clone()).powf(self.one_fourth.real());
-        if delta <= self.one_tenth.real() {
+        // (also when the estimate is not a number: an overflowed trial is a rejected trial)
+        if !(delta > self.one_tenth.real()) {
             self.dt *= self.one_tenth;
         } else if delta >= self.four.real() {
             self.dt *= self.four;
